@@ -62,6 +62,8 @@ static std::string guard(const std::function<std::string()> &f, unsigned timeout
 static std::string unhex(const std::string &h)
 {
     std::string s;
+    if (h == "-") // the empty string inside a comma-separated list
+        return s;
     for (size_t i = 0; i + 1 < h.size(); i += 2)
         s += (char)std::stoi(h.substr(i, 2), nullptr, 16);
     return s;
